@@ -761,11 +761,16 @@ class Engine:
         loopinfo = self.ev.loop_info(self, f) if (headers and self.ev is not None) else {}
         for _li in loopinfo.values():
             _li["entry_objs"] = set(st.heap.keys())
-        if headers and not loopinfo:
-            # no invariants: unroll (only terminates when the loop bound becomes concrete)
-            return self.exec_unrolled(st, f, args, fvs)
-        for bi in rpo:
+        # Blocks are processed in reverse post-order, always taking the earliest block that has pending states, so every
+        # join sees all its arrivals of the current round and merges them. A loop without an invariant is unrolled round
+        # by round (back edges re-queue the header); that terminates only when the loop bound is concrete in every state.
+        budget = 40 * len(rpo) + 20000
+        while pending:
+            bi = min(pending.keys(), key=lambda k: pos[k])
             ins = pending.pop(bi, None)
+            budget -= 1
+            if budget < 0:
+                raise Unsupported("loop without invariant does not terminate under unrolling in %s" % f.short)
             if not ins:
                 continue
             b = blocks[bi]
@@ -784,7 +789,7 @@ class Engine:
                     for n, v in vals:
                         regs[n] = v
                 prepared.append((s, regs, None))
-            if bi in headers:
+            if bi in headers and bi in loopinfo:
                 prepared = self.loop_entry(f, b, prepared, args, fvs, loopinfo[bi])
             merged = self.merge_all(prepared)
             for (s, regs, _) in merged:
